@@ -207,7 +207,8 @@ SPEC = {
         "program model, not re-proved here; Model/UsageDfs.lean is a hand-written model of a REJECTED variant (negative example)",
         "the progress hypotheses of the loop theorems (an element parser consumes a token on success; the single-token lexer "
         "consumes a byte) are tied to the code by the reviewed list of combinator uses and by the C08.lex correspondence",
-        "the supervised run sees only the inputs it generates; distributions are in the evidence",
+        "the supervised run sees only the inputs it generates; distributions are in the evidence; the harness's include handler "
+        "answers FileNotFound once it handed out 1 MB for one compile (generated headers included hundreds of times)",
     ],
     "assumptions": [
         "time budget constants (400 ms + n^2 * 150 ns on a loaded 16-core machine, dev profile opt-level 1) are a choice; "
